@@ -307,7 +307,7 @@ func cmdCheck(args []string) int {
 			switch {
 			case err != nil:
 				inconclusive = append(inconclusive, fmt.Sprintf("witness replay %s failed to run: %v", w.file, err))
-			case rr.Infeasible:
+			case rr.Infeasible && !contains(rr.Reached, w.label):
 				inconclusive = append(inconclusive, fmt.Sprintf("translation validation: witness %s (%s/%s) is infeasible natively", w.file, w.h, w.label))
 			case !contains(rr.Reached, w.label):
 				inconclusive = append(inconclusive, fmt.Sprintf("translation validation: native run of %s does not reach %q", w.file, w.label))
